@@ -16,7 +16,13 @@ from .c12 import map_spec, REAL_PARAMS, ROLE_DOM, ROLE_HI, _mk_norm
 PROP_ID = "C09"
 sym_mods = common.sym_mods
 real_mods = common.real_mods
-replay = common.generic_replay
+
+
+def replay(task, rec):
+    if task.engine == "custom":
+        from .. import xh
+        return xh.replay(task, rec)
+    return common.generic_replay(task, rec)
 
 
 def unchanged(env, name, after, before):
@@ -201,6 +207,8 @@ def tasks(tier):
     for cls in ("SubsetRBF", "SpinSymRBF"):
         out.append(Task("history/kernel/%s" % cls, h_history_kernel, dict(cls=cls), mods="kernels"))
     out += c01_l5.c09_tasks(tier)
+    from .. import xh
+    out += xh.tasks_for("c09", tier)
     return out
 
 
